@@ -4,6 +4,7 @@ import KaVerif.Props.C03
 import KaVerif.Props.C05
 import KaVerif.Props.C09
 import KaVerif.Props.C11
+import KaVerif.Props.C12
 import KaVerif.Props.C15
 import KaVerif.Props.C16
 /-
@@ -316,6 +317,114 @@ theorem PIPE_range (env : Env) (A B : Ast) (lo hi : Int)
     evalE env (.range A B) = .ok (.arr ((Arr.range lo hi).map (fun k => .num (.int k)))) := by
   simp only [evalE, hA, hB, bind, Except.bind]
   exact dispatch_range _ lo hi hsz
+
+section RangeStep
+open Num
+
+/-! ## C12: `range(lo, hi, step)` -/
+
+/-- **Table fact.** `range` with three exact numbers reaches `ka_range`. -/
+theorem kaRange_table : ∀ a ∈ cExact, ∀ b ∈ cExact, ∀ c ∈ cExact,
+    (resolveDesc "range" [a, b, c] []).toOption =
+      some (chP [tNum, tNum, tNum] "range|(Number, Number, Number)|ka.functions.ka_range" .kaRange) := by
+  decide +kernel
+
+theorem numClass_canon (q : Rat) : numClass (canon q) ∈ cExact := by
+  unfold canon; split <;> simp [numClass, cExact]
+
+theorem rnum_le_canon (n : Nat) (a b : Rat) :
+    rnum (fun nm as => dispatchV (n + 1) nm as []) "<=" [canon a, canon b] = .ok (.int (if a ≤ b then 1 else 0)) := by
+  rw [rnum_le]
+  simp [cmpLe, toRat_canon]
+
+theorem rnum_lt_zero_canon (n : Nat) (b : Rat) :
+    rnum (fun nm as => dispatchV (n + 1) nm as []) "<" [.int 0, canon b] = .ok (.int (if 0 < b then 1 else 0)) := by
+  have h := rnum_cmp n .lt (.int 0) (canon b)
+  simp only [cmpOpName, Compare.cmpNum, Compare.b2n] at h
+  rw [h]
+  have h0 : (Num.int 0).toRat = 0 := by simp [toRat]
+  simp only [cmpLt, toRat_canon, h0]
+  simp
+
+theorem rnum_add_canon (n : Nat) (a b : Rat) :
+    rnum (fun nm as => dispatchV (n + 1) nm as []) "+" [canon a, canon b] = .ok (canon (a + b)) := by
+  simp only [rnum, List.map, dispatch_add, Arr.binop_add_canon, liftN, bind, Except.bind]
+
+theorem coerceArgs_num3 (t1 t2 t3 : Nat) (x y z : Num) :
+    coerceArgs [t1, t2, t3] none [.num x, .num y, .num z] = .ok [.num x, .num y, .num z] :=
+  coerceArgs_3 t1 t2 t3 (.num x) (.num y) (.num z) rfl rfl rfl
+
+theorem truthy_int_ite (p : Prop) [Decidable p] : truthy (.int (if p then 1 else 0)) = decide p := by
+  by_cases h : p <;> simp [h] <;> decide
+
+/-- the `while` loop of `ka_range` through `dispatch` is the array model's loop on exact rationals -/
+theorem kaRangeLoop_eq (n : Nat) (hi step : Rat) (f : Nat) (c : Rat) (racc : List Rat) :
+    kaRangeLoop (fun nm as => dispatchV (n + 1) nm as []) (canon hi) (canon step) f (canon c)
+        (racc.map (fun q => Val.num (canon q))) =
+      match Arr.rangeLoop hi step f c racc with
+      | some xs => .ok (.arr (xs.map (fun q => Val.num (canon q))))
+      | none => raise .diverges := by
+  induction f generalizing c racc with
+  | zero => rfl
+  | succ f ih =>
+    simp only [kaRangeLoop, Arr.rangeLoop, rnum_le_canon, bind, Except.bind, truthy_int_ite]
+    by_cases h : c ≤ hi
+    · simp only [h, decide_true, if_true, rnum_add_canon]
+      exact ih (c + step) (c :: racc)
+    · simp only [h, decide_false, Bool.false_eq_true, if_false, List.map_reverse]
+
+theorem rangeLoop_mono (hi step : Rat) (f : Nat) (c : Rat) (acc xs : List Rat)
+    (h : Arr.rangeLoop hi step f c acc = some xs) : Arr.rangeLoop hi step (f + 1) c acc = some xs := by
+  induction f generalizing c acc with
+  | zero => simp [Arr.rangeLoop] at h
+  | succ f ih =>
+    rw [Arr.rangeLoop] at h ⊢
+    by_cases hc : c ≤ hi
+    · simp only [hc, if_true] at h ⊢; exact ih _ _ h
+    · simp only [hc, if_false] at h ⊢; exact h
+
+/-- **`range(lo, hi, step)` inside the unified evaluator is `Arr.kaRange`** on exact operands: the
+    positive-step and `lo ≤ hi` guards (FunctionArgError otherwise — never a hang, C12_range_step_reject),
+    then the `while curr <= hi` loop through `dispatch`, which yields exactly the array model's list
+    `lo, lo+step, …` not exceeding `hi` (C12_range_step), each element delivered canonically.  Side
+    condition: the element count stays below `Eval.maxRange` (2 000 000), beyond which the model declines. -/
+theorem PIPE_range_step (lo hi step : Rat)
+    (hsz : 0 < step → lo ≤ hi → ((hi - lo) / step).floor.toNat + 3 ≤ maxRange) :
+    dispatchTop "range" [.num (canon lo), .num (canon hi), .num (canon step)] [] =
+      match Arr.kaRange lo hi step with
+      | .ok xs => .ok (.arr (xs.map (fun q => Val.num (canon q))))
+      | .error e => .error (.err e) := by
+  have t := kaRange_table _ (numClass_canon lo) _ (numClass_canon hi) _ (numClass_canon step)
+  rw [dispatchTop, dispatchFuel,
+    dispatchV_step (c := chP [tNum, tNum, tNum] _ .kaRange) (code := .kaRange) (by simpa [classOf] using t) rfl]
+  simp only [chP, coerceArgs_num3, BodyCode.run, bKaRange, bind, Except.bind,
+    rnum_lt_zero_canon, rnum_le_canon, truthy_int_ite, toRat_canon]
+  by_cases hs : 0 < step
+  · by_cases hl : lo ≤ hi
+    · have hn := hsz hs hl
+      have hk := C12_range_step lo hi step hs hl
+      have hng : ¬ ((hi - lo) / step).floor.toNat + 3 > maxRange := Nat.not_lt.mpr hn
+      simp only [hs, hl, decide_true, Bool.not_true, Bool.false_eq_true, if_false, hng]
+      have hloop := kaRangeLoop_eq 8 hi step (((hi - lo) / step).floor.toNat + 3) lo []
+      simp only [List.map_nil] at hloop
+      rw [hloop]
+      rw [hk]
+      unfold Arr.kaRange at hk
+      simp only [hs, hl, not_true_eq_false, if_false] at hk
+      cases hr : Arr.rangeLoop hi step (((hi - lo) / step).floor.toNat + 2) lo [] with
+      | none => rw [hr] at hk; cases hk
+      | some xs =>
+        rw [hr] at hk
+        simp only [Except.ok.injEq] at hk
+        rw [rangeLoop_mono hi step _ lo [] xs hr, hk]
+        rfl
+    · simp only [hs, hl, decide_true, decide_false, Bool.not_true, Bool.not_false, Bool.false_eq_true, if_false, if_true,
+        Arr.kaRange, not_true_eq_false, not_false_eq_true]
+      rfl
+  · simp only [hs, decide_false, Bool.not_false, if_true, Arr.kaRange, not_false_eq_true]
+    rfl
+
+end RangeStep
 
 /-! ## C15: what the pipeline prints is the display model's text -/
 
@@ -655,5 +764,12 @@ example : observe (runIn initialEnv "1/0".toList).2 = some (.done 1 false true)
     ∧ observe (runIn initialEnv "2 + 3".toList).2 = some (.done 0 true false)
     ∧ (stagesOf initialEnv "2 + 3".toList).evalTree = none ∧ (stagesOf initialEnv "2 + 3".toList).display = none := by
   decide +kernel
+
+/-- the side condition of `PIPE_range_step` on `range(1, 10, 3/2)` (7 elements) -/
+example : (((10 : Rat) - 1) / (3/2)).floor.toNat + 3 ≤ maxRange := by decide +kernel
+set_option maxRecDepth 100000 in
+example : (runText "range(1, 10, 3/2)").render = "ok {1, 5/2, 4, 11/2, 7, 17/2, 10}\n" := by decide +kernel
+set_option maxRecDepth 100000 in
+example : (runText "range(1, 10, 0)").render = "err funarg" := by decide +kernel
 
 end KaVerif
